@@ -365,4 +365,34 @@ mod verif_emit {
         e.bytes(&d.b[..d.bl]);
         same(s, &e);
     }
+
+    /// collect_str when the Display impl hands over text through write_char (as `impl Display for char` does), incl. multi-byte chars
+    struct D3 {
+        c: char,
+        a: [u8; 2],
+        al: usize,
+    }
+    impl core::fmt::Display for D3 {
+        fn fmt(&self, f: &mut core::fmt::Formatter<'_>) -> core::fmt::Result {
+            use core::fmt::Write;
+            f.write_char(self.c)?;
+            f.write_str(unsafe { core::str::from_utf8_unchecked(&self.a[..self.al]) })
+        }
+    }
+    #[kani::proof]
+    #[kani::unwind(12)]
+    fn emit_collect_str_char() {
+        let d = D3 { c: kani::any(), a: kani::any(), al: kani::any() };
+        kani::assume(d.al <= 2 && d.a[0] < 0x80 && d.a[1] < 0x80);
+        let mut s = fresh();
+        assert!((&mut s).collect_str(&d).is_ok());
+        let mut u = [0u8; 4];
+        let cl = d.c.encode_utf8(&mut u).len();
+        kani::cover!(cl == 3);
+        let mut e = Exp::new();
+        e.varint64((cl + d.al) as u64);
+        e.bytes(&u[..cl]);
+        e.bytes(&d.a[..d.al]);
+        same(s, &e);
+    }
 }
